@@ -293,9 +293,9 @@ def gauss(dim: int, order: Union[int, str]) -> tuple[np.ndarray, np.ndarray]:
                         200.0 / 729.0,
                         320.0 / 729.0,
                         200.0 / 729.0,
-                        125.0 / 729.0,
-                        200.0 / 729.0,
-                        125.0 / 729.0,
+                        320.0 / 729.0,
+                        512.0 / 729.0,
+                        320.0 / 729.0,
                         200.0 / 729.0,
                         320.0 / 729.0,
                         200.0 / 729.0,
